@@ -269,11 +269,7 @@ func checkC01(c *Ctx, r *Report) {
 			r5.guard(pk, "return key", keyRets, "signature Verify valid==true", edgeBool(ext(0), true), nil)
 			r5.guard(pk, "return key", keyRets, "signature Verify err==nil", edgeNil(ext(1), true), nil)
 			r5.guard(pk, "return key", keyRets, "cert.Verify err==nil", edgeNil(isCallResult(1, "(*crypto/x509.Certificate).Verify"), true), nil)
-			r5.guard(pk, "return key", keyRets, "len(chain)==1", edgeCmp(func(b *ssa.BinOp) bool {
-				n, ok := constInt(b.Y)
-				call, _ := b.X.(*ssa.Call)
-				return ok && n == 1 && b.Op == token.NEQ && call != nil && calleeKey(call) == "builtin.len"
-			}, false), nil)
+			r5.guard(pk, "return key", keyRets, "len(chain)==1", edgeIntBound(isLenCall, 1, 1, true), nil)
 			key := strip(callArgs(verifies[0])[0])
 			for _, ret := range keyRets {
 				r5.Check(strip(retVal(ret.(*ssa.Return), 0)) == key, tlsP+".PubKeyFromCertChain: returned key is the verified key", instrPos(ret), 1, "", "the key returned is not the key whose signature was verified", "")
